@@ -81,4 +81,7 @@ def run(ctx: Ctx) -> None:
               "gather_if_necessary returns the items in input order (its own contract: C12)")
     prove(ctx, TARGETS)
     token_callbacks(ctx)
+    # token languages of the grammar, decided over all of Unicode (sufficient-condition obligations, see checks/tokenlang.py)
+    from checks import tokenlang
+    tokenlang.obligations(ctx, grammars=("ahb",))
     run_bounded(ctx, "C09")
